@@ -1,6 +1,7 @@
 package main
 
 import (
+	"math/big"
 	"fmt"
 	"os"
 	"strings"
@@ -11,6 +12,30 @@ import (
 // the real callee behaves differently), ask for other models in which the
 // scalar inputs differ, a few times.
 func replayWithRetries(eng *Engine, vc *VC, cfg checkCfg, scratch, pre string) *ReplayResult {
+	// prefer a small model: lengths <= 48, integers of moderate size
+	var small []string
+	for _, mv := range vc.ModelVars {
+		if strings.HasSuffix(mv.Name, "#len") && mv.Sort.IsBV() {
+			small = append(small, app("bvule", mv.Term, bvInt(48, mv.Sort.Bits())))
+		} else if mv.Sort.IsBV() && mv.Sort.Bits() == 64 && !strings.Contains(mv.Name, "[") {
+			small = append(small, app("or", app("bvule", mv.Term, bvInt(1<<16, 64)), app("bvuge", mv.Term, bvLit(new(big.Int).Sub(new(big.Int).Lsh(big.NewInt(1), 64), big.NewInt(1<<16)), 64))))
+		}
+	}
+	if len(small) > 0 {
+		sm := *vc
+		sm.Asserts = append(append([]string(nil), vc.Asserts...), small...)
+		sm.Result, sm.Model, sm.Solver = "", "", ""
+		dischargeEach([]*VC{&sm}, pre, scratch, 10, false, 1)
+		if sm.Result == "sat" {
+			if r := Replay(eng, &sm, cfg, scratch); r != nil && r.Confirmed {
+				vc.Model = sm.Model
+				if sm.File != "" {
+					vc.File = sm.File
+				}
+				return r
+			}
+		}
+	}
 	rr := Replay(eng, vc, cfg, scratch)
 	if rr == nil || rr.Confirmed || rr.TestSrc == "" {
 		return rr
